@@ -39,6 +39,11 @@ impl Client {
 
     pub fn left(&self, dbs: &Arc<Databases>) {
         let dbs_maps = dbs.map.read().expect("Error getting the dbs.map.lock");
+        // The session is over: its subscriptions end in every database it watched keys in, not
+        // only in the one it has selected now
+        for db in dbs_maps.values() {
+            unwatch_all(&self.sender, db);
+        }
         let selected_db_name = self.selected_db_name();
         match selected_db_name {
             Some(ref db_name) => {
